@@ -268,6 +268,13 @@ Proof.
 Qed.
 Print Assumptions C15_get_multi.
 
+(* Queries() (4 result slots, one retry with the reported count): on every
+   sorted list no error survives the retry, no Panic, all Uri-Query values in order *)
+Theorem C15_queries : forall l, sorted l ->
+  queries l = if ref_has URIQuery l then Ok (ENone, ref_values URIQuery l) else Ok (ENotFound, []).
+Proof. exact queries_spec. Qed.
+Print Assumptions C15_queries.
+
 (* uint option values are the minimal big-endian encoding *)
 Theorem C15_uint_bytes : forall b v, 0 <= v < 4294967296 ->
   encode_uint32 b v = if b <? uint_len v then (uint_len v, ETooSmall, []) else (uint_len v, ENone, uint_bytes v).
